@@ -326,7 +326,7 @@ def is_not_const_truthy(atom: ast.expr) -> bool:
     if isinstance(atom, ast.UnaryOp) and isinstance(atom.op, ast.Not) and isinstance(atom.operand, ast.Constant):
         return bool(atom.operand.value)
     if isinstance(atom, ast.Constant) and not isinstance(atom.value, str):
-        return not bool(atom.value) and atom.value is not None and False
+        return not bool(atom.value)  # a path on which the tested value is the literal None / False / 0 does not take the branch
     return False
 
 
